@@ -66,6 +66,18 @@ def run_case(ctx, rep, spec, field, dtype, limit, order_id, model, path=None, tr
         nz = int(np.count_nonzero(arr)) if arr.size else 0
         rep.fail(f"saved array (shape {arr.shape}, {nz} non-zero cells) is not the covering grid of level {L}", case)
         return
+    if model and dtype == "float32":
+        # the conversion itself against the Lean test `F32.castOK` (C10.cast_is_correctly_rounded): every saved single is
+        # the correctly rounded value of the double of the covering grid
+        w = np.ascontiguousarray(vals, dtype="<f8").view("<u8").ravel()
+        v = np.ascontiguousarray(arr, dtype="<f4").view("<u4").ravel()
+        pairs = sorted({(int(a), int(b)) for a, b in zip(w[:: max(1, w.size // 4000)], v[:: max(1, w.size // 4000)])})
+        m = leanio.driver([{"op": "cast32", "pairs": [list(p) for p in pairs]}])[0]
+        if m.get("status") == "ok" and not m.get("bad"):
+            rep.agree(); rep.count("singles-are-correctly-rounded-doubles", len(pairs))
+        else:
+            rep.tie("a saved single-precision value is not the correctly rounded double by the Lean test F32.castOK", case,
+                    {"bad": [pairs[i] for i in (m.get("bad") or [])[:4]]})
     if model and dtype == "float64" and spec["data"]["mode"] == "tags" and arr.size <= 40000 and not spec["data"].get("plant"):
         m = leanio.driver([{"op": "cover", "levels": geom.model_levels(spec, truth, names[field], L), "L": L,
                             "shape": list(arr.shape)}])[0]
